@@ -344,6 +344,8 @@ class AsyncIOClient(ABC):
         if self._process_queue_task and not self._process_queue_task.done() and self._process_queue_task is not current_task:
             self._process_queue_task.cancel()
             await asyncio.sleep(0.01)  # Allow cancellation to propagate
+        # nothing is decoded any more: flush and close the dump file
+        self.decoder.close()
         self.logger.info("Connection closed.")
 
     async def _process_queue(self):
